@@ -131,6 +131,14 @@ def main():
     cases.append(make_case([' '.join(chars)], [gold_long], 'long-utterance'))                                   # over-segmented
     cases.append(make_case([gold_long], [' '.join(chars)], 'long-utterance'))                                   # under-segmented
     cases.append(make_case([' '.join(chars[i:i + 3] for i in range(0, len(chars), 3))], [gold_long], 'long-utterance'))   # mis-segmented
+    # chunks (maximal spans without a boundary common to text and gold) of hundreds and thousands of letters
+    cases.append(make_case([chars], [gold_long], 'long-chunk'))                                                    # one text word for 2600 gold words
+    cases.append(make_case([gold_long], [chars], 'long-chunk'))                                                    # one gold word of 3900 letters
+    w300 = 'ab' * 150
+    cases.append(make_case(['x ' + w300[:140] + ' ' + w300[140:] + ' y'], ['x ' + w300 + ' y'], 'long-chunk'))     # a 300-letter gold word cut in two
+    s282 = w300[:282]
+    cases.append(make_case(['x ' + ' '.join(s282[i:i + 3] for i in range(0, 282, 3)) + ' y'],
+                           ['x ' + s282[:2] + ' ' + ' '.join(s282[i:i + 3] for i in range(2, 282, 3)) + ' y'], 'long-chunk'))   # 282 letters without a common inner boundary
     correspond(ck, cases)
     n, problems = ck.coq_recheck()
     finish_proof_failures(ck, failures + problems)
